@@ -177,6 +177,7 @@ static void on_chain(YR_SCAN_CONTEXT* ctx, YR_STRING* s, uint64_t off, int32_t l
 #endif
 
 static int fresh_iterator = 0;
+static YR_MEMORY_BLOCK_ITERATOR* abandoned_it[64];
 static int default_include = 0;
 /* ---------- descriptor accounting: an API call must neither leak a descriptor nor close one of the caller's ---------- */
 #include <dirent.h>
@@ -1074,6 +1075,7 @@ int main(int argc, char** argv)
       int s = slot(tok[1], MAXSLOT);
       if (scanners[s]) yr_scanner_destroy(scanners[s]);
       scanners[s] = NULL;
+      free(abandoned_it[s]); abandoned_it[s] = NULL;
       fprintf(out, "{\"e\":\"ScannerDestroy\",\"sid\":%d}\n", s);
     }
     else if (!strcmp(op, "scan"))
@@ -1120,6 +1122,7 @@ int main(int argc, char** argv)
         ic.fsize = datas[d].n;
         /* the iterator handle lives on the heap; with `opt freshit 1` every repeated call is given a NEW handle for the same
            source (contents carried over, the old one released), as a caller that builds the structure per call would */
+        YR_MEMORY_BLOCK_ITERATOR* old_it = abandoned_it[s]; abandoned_it[s] = NULL;
         YR_MEMORY_BLOCK_ITERATOR* itp = (YR_MEMORY_BLOCK_ITERATOR*) malloc(sizeof(YR_MEMORY_BLOCK_ITERATOR));
         itp->context = &ic; itp->first = it_first; itp->next = it_next;
         itp->file_size = strcmp(mode, "blocksnofs") == 0 ? NULL : it_fsize;
@@ -1141,7 +1144,9 @@ int main(int argc, char** argv)
             fputs("}\n", out);
           }
         } while (r == ERROR_BLOCK_NOT_READY && calls < maxcalls);
-        if (r != ERROR_BLOCK_NOT_READY) free(itp);      /* a suspended scan that is abandoned keeps its handle alive (the scanner may still refer to it) */
+        free(old_it);
+        /* the handle of a suspended scan stays alive until the next scan call on this scanner / its destruction */
+        if (r != ERROR_BLOCK_NOT_READY) free(itp); else abandoned_it[s] = itp;
       }
       clock_gettime(CLOCK_MONOTONIC, &t1);
       if (count_fds() != scan_fds_before)
